@@ -562,7 +562,104 @@ def ev_pinv_deficient(a):
     return dict(impl=impl, spec=("V", 1.0), lines=[])
 
 
-KERNELS = {"toeplitz": ev_toeplitz, "tgetitem": ev_tgetitem, "tmatmul": ev_tmatmul, "dqf": ev_dqf, "linterp": ev_linterp,
+ERR_SENTINEL = 77777.0
+
+
+def ev_tgetitemz(a):
+    """toeplitz_getitem / sym_toeplitz_getitem on arbitrary Python ints (negative, beyond n): only i - j matters,
+    |i - j| >= n raises IndexError (encoded as a sentinel so that one case covers a whole list of index pairs)"""
+    TZ = _U()[0]
+    c, r = tt(a["c"]), tt(a["r"])
+    n = len(c)
+    pairs = [tuple(p) for p in a["pairs"]]
+
+    def one(i, j):
+        try:
+            v = TZ.sym_toeplitz_getitem(c, i, j) if a.get("sym") else TZ.toeplitz_getitem(c, r, i, j)
+            if v.dim() != 0:
+                raise AssertionError(f"toeplitz_getitem({i},{j}) returned shape {tuple(v.shape)}")
+            return float(v)
+        except IndexError:
+            return ERR_SENTINEL
+    impl, x2 = call2(lambda: torch.tensor([one(i, j) for i, j in pairs], dtype=c.dtype), [c, r])
+    vals = []
+    for i, j in pairs:
+        d = i - j
+        if abs(d) >= n:
+            vals.append(ERR_SENTINEL)
+        elif a.get("sym"):
+            vals.append(float(c[abs(d)]))
+        else:
+            vals.append(float(c[d]) if d >= 0 else float(r[-d]))
+    spec = ("T", (len(pairs),), vals, DTN[c.dtype])
+    rr = c if a.get("sym") else r
+    lines = [f"tgetitemz {enc(c)} {enc(rr)} {i} {j}" for i, j in pairs]
+    return dict(impl=impl, spec=spec, lines=lines, gather=("T", (len(pairs),)), errsentinel=ERR_SENTINEL, **x2)
+
+
+def ev_bdsmmflat(a):
+    """intermediate state of bdsmm's first branch: the block-diagonal `sparse_2d` and the flattened `dense_2d` handed to torch.dsmm
+    (recorded through a pass-through patch of torch.dsmm), against block_diag / expand+reshape and the Lean `bdsmmFlat`"""
+    SP = _U()[2]
+    s, d = sp(a["s"]), tt(a["d"])
+    real = torch.dsmm
+
+    def run():
+        rec = []
+
+        def fake(S2, D2):
+            rec.append((S2, D2))
+            return real(S2, D2)
+        with mock.patch.object(torch, "dsmm", fake):
+            SP.bdsmm(s, d)
+        if len(rec) != 1:
+            raise AssertionError(f"torch.dsmm called {len(rec)} times")
+        S2, D2 = rec[0]
+        cs = canon(S2)
+        if cs[0] == "ERR":
+            raise IndexError(cs[2])
+        if not S2.is_sparse or S2.dim() != 2 or D2.dim() != 2:
+            raise AssertionError("torch.dsmm operands are not (2-D sparse, 2-D dense)")
+        return torch.cat([torch.tensor(list(S2.shape), dtype=d.dtype), S2.to_dense().reshape(-1),
+                          torch.tensor(list(D2.shape), dtype=d.dtype), D2.reshape(-1)])
+    try:
+        m, n = s.shape[-2:]
+        pp = d.shape[-1]
+        if d.shape[-2] != n:
+            raise RuntimeError("inner")
+        ob = torch.broadcast_shapes(tuple(s.shape[:-2]), tuple(d.shape[:-2]))
+        Sd = s.to_dense().expand(*ob, m, n).reshape(-1, m, n)
+        blk = torch.block_diag(*[Sd[k] for k in range(Sd.shape[0])])
+        Dd = d.expand(*ob, n, pp).reshape(-1, pp)
+        spec = canon(torch.cat([torch.tensor(list(blk.shape), dtype=d.dtype), blk.reshape(-1),
+                                torch.tensor(list(Dd.shape), dtype=d.dtype), Dd.reshape(-1)]))
+    except RuntimeError:
+        spec = err()
+    impl, x2 = call2(run, [s, d])
+    return dict(impl=impl, spec=spec, lines=[f"bdsmmflat {encsp(s)} {enc(d)}"], **x2)
+
+
+def ev_dsmmbackdirect(a):
+    """DSMM.backward called directly (no autograd sum-reduction): the un-reduced gradient bdsmm(S^T, grad) = S^T @ grad"""
+    import types
+    from linear_operator.functions._dsmm import DSMM
+    s, g = sp(a["s"]), tt(a["g"])
+    ctx = types.SimpleNamespace(sparse=s)
+
+    def run():
+        res = DSMM.backward(ctx, g)
+        if not (isinstance(res, tuple) and len(res) == 2 and res[0] is None):
+            raise AssertionError("DSMM.backward must return (None, grad)")
+        return res[1]
+    try:
+        spec = canon(torch.matmul(s.to_dense().transpose(-1, -2), g))
+    except RuntimeError:
+        spec = err()
+    impl, x2 = call2(run, [s, g])
+    return dict(impl=impl, spec=spec, lines=[f"dsmmback 1 {encsp(s)} {enc(g)}"], **x2)
+
+
+KERNELS = {"tgetitemz": ev_tgetitemz, "bdsmmflat": ev_bdsmmflat, "dsmmbackdirect": ev_dsmmbackdirect, "toeplitz": ev_toeplitz, "tgetitem": ev_tgetitem, "tmatmul": ev_tmatmul, "dqf": ev_dqf, "linterp": ev_linterp,
            "ltinterp": ev_ltinterp, "mksparse": ev_mksparse, "bdsmm": ev_bdsmm, "dsmmback": ev_dsmmback, "speye": ev_speye,
            "spgetitem": ev_spgetitem, "sprepeat": ev_sprepeat, "tosparse": ev_tosparse, "perm": ev_perm, "invperm": ev_invperm,
            "mbshape": ev_mbshape, "stableqr": ev_stableqr, "pinv": ev_pinv, "pinv_deficient": ev_pinv_deficient}
@@ -656,14 +753,25 @@ def gen_cases(rng, tier):
             r2 = ival(rng, (n + 1,))
             r2[0] = c[0]
             add(f"C20/toeplitz/n={n}/err=len", "toeplitz", c=targ(c), r=targ(r2))
+            # arbitrary Python ints: the n x n grid shifted by negative / beyond-n offsets, and differences >= n (IndexError)
+            for sym in (0, 1):
+                c = ival(rng, (n,), nonzero=True)
+                r = c.clone() if sym else ival(rng, (n,), nonzero=True)
+                r[0] = c[0]
+                for oname, o in (("neg", -n), ("minus1", -1), ("n", n), ("big", 2 * n + 3)):
+                    pairs = [[i + o, j + o] for i in range(n) for j in range(n)]
+                    add(f"C20/toeplitz_getitem_int/n={n}/sym={sym}/shift={oname}", "tgetitemz", c=targ(c), r=targ(r), sym=sym, pairs=pairs)
+                pairs = [[n, 0], [0, n], [-1, n - 1], [n + 1, 0], [0, n + 2], [-n, 0], [2 * n, n], [n - 1, -1], [-1, -1 - n]]
+                add(f"C20/toeplitz_getitem_int/n={n}/sym={sym}/outofrange", "tgetitemz", c=targ(c), r=targ(r), sym=sym, pairs=pairs)
         # ---------------------------------------------------------------- toeplitz_matmul
         # (c batch, rhs batch): none/one/several/broadcasting
-        combos = [((), ()), ((2,), (2,)), ((2, 3), (2, 3)), ((), (2,)), ((2,), ()), ((1,), (3,)), ((3, 1), (2,)), ((2,), (3, 1))]
+        combos = [((), ()), ((2,), (2,)), ((2, 3), (2, 3)), ((), (2,)), ((2,), ()), ((1,), (3,)), ((3, 1), (2,)), ((2,), (3, 1)),
+                  ((2, 1), (1, 3)), ((2, 3), (3,)), ((1, 1, 2), (3, 1))]
         for n in sizes:
             for (cb, xb) in combos:
                 for dn, dt in dts:
                     for sym in (0, 1):
-                        if sym and cb not in ((), (2,)):
+                        if sym and cb not in ((), (2,), (2, 1), (2, 3)):
                             continue
                         for p in (1, 3):
                             c = ival(rng, cb + (n,), dtype=dt)
@@ -693,11 +801,14 @@ def gen_cases(rng, tier):
             for dn, dt in dts:
                 add(f"C20/toeplitz_dqf/m={m}/s=vec/{dn}", "dqf", u=targ(ival(rng, (m,), dtype=dt)), v=targ(ival(rng, (m,), dtype=dt)))
                 for s in (1, 2, 3):
-                    for b in ((), (2,), (2, 2)):
+                    for b in ((), (2,), (2, 2), (1,), (2, 1, 2), (1, 2, 1, 2)):
+                        if len(b) > 2 and m > 3 and not thorough:
+                            continue
                         add(f"C20/toeplitz_dqf/m={m}/s={s}/b={bname(b)}/{dn}", "dqf", u=targ(ival(rng, b + (m, s), dtype=dt)),
                             v=targ(ival(rng, b + (m, s), dtype=dt)))
         # ---------------------------------------------------------------- interpolation
-        icombos = [((), ()), ((2,), ()), ((), (2,)), ((2,), (2,)), ((2, 3), (2, 3)), ((1,), (3,)), ((2, 1), (3,)), ((3,), (2, 1))]
+        icombos = [((), ()), ((2,), ()), ((), (2,)), ((2,), (2,)), ((2, 3), (2, 3)), ((1,), (3,)), ((2, 1), (3,)), ((3,), (2, 1)),
+                   ((1, 2), (3, 1)), ((2, 1, 1), (3, 2)), ((1, 1), ())]
         for n in (1, 3, 4):
             for R in (1, 2, 4):
                 for K in (1, 2, 3):
@@ -732,7 +843,10 @@ def gen_cases(rng, tier):
                                 add(f"C20/make_sparse/n={n}/T={R}/K={K}/{kind}/b={bname(ib)}", "mksparse", idx=targ(idx), val=targ(val), nrows=n + (K % 2))
         # ---------------------------------------------------------------- bdsmm / dsmm / backward
         bcombos = [((), ()), ((), (2,)), ((), (2, 3)), ((2,), (2,)), ((2, 3), (2, 3)), ((2,), ()), ((1,), (3,)), ((2,), (3, 1)),
-                   ((3, 1), (2,)), ((1, 2), (3, 1))]
+                   ((3, 1), (2,)), ((1, 2), (3, 1)),
+                   # session 5: size-1 dims in the middle / on both sides, rank differences in both directions, three batch dims, mismatch
+                   ((2, 1), (2, 3)), ((1, 1), (2, 3)), ((2,), (3, 1, 2)), ((1, 3), (2, 1)), ((2, 1, 2), (3, 1)), ((2, 3), (3,)),
+                   ((2,), (3,)), ((2, 3), (2, 2))]
         for (m, n, p) in ((1, 1, 1), (2, 3, 2), (3, 2, 1), (3, 3, 2)):
             for (sb, db) in bcombos:
                 for kind in ("rand", "dup", "empty"):
@@ -741,6 +855,9 @@ def gen_cases(rng, tier):
                     d = ival(rng, db + (n, p), dtype=dt)
                     for via in ("bdsmm", "dsmm"):
                         add(f"C20/{via}/m={m}/n={n}/p={p}/sb={bname(sb)}/db={bname(db)}/{kind}", "bdsmm", s=sparg(s), d=targ(d), via=via)
+                    if sb != ():
+                        # the operands handed to torch.dsmm (block-diagonal sparse_2d, flattened dense_2d)
+                        add(f"C20/bdsmm_flat/m={m}/n={n}/p={p}/sb={bname(sb)}/db={bname(db)}/{kind}", "bdsmmflat", s=sparg(s), d=targ(d))
                     if kind != "empty":
                         try:
                             osh = torch.broadcast_shapes(sb, db) + (m, p)
@@ -748,6 +865,13 @@ def gen_cases(rng, tier):
                             continue
                         g = ival(rng, tuple(osh), dtype=dt)
                         add(f"C20/dsmm_backward/m={m}/n={n}/p={p}/sb={bname(sb)}/db={bname(db)}/{kind}", "dsmmback", s=sparg(s), d=targ(d), g=targ(g))
+                        # DSMM.backward itself (no autograd reduction), cotangent batch = broadcast batch and = dense batch
+                        add(f"C20/dsmm_backward_direct/m={m}/n={n}/p={p}/sb={bname(sb)}/gb={bname(tuple(osh[:-2]))}/{kind}", "dsmmbackdirect",
+                            s=sparg(s), g=targ(g))
+                        if tuple(db) != tuple(osh[:-2]):
+                            g2 = ival(rng, db + (m, p), dtype=dt)
+                            add(f"C20/dsmm_backward_direct/m={m}/n={n}/p={p}/sb={bname(sb)}/gb={bname(db)}/{kind}", "dsmmbackdirect",
+                                s=sparg(s), g=targ(g2))
             s = rand_sparse(rng, (m, n), torch.float64)
             add(f"C20/bdsmm/err=inner/m={m}/n={n}", "bdsmm", s=sparg(s), d=targ(ival(rng, (n + 1, p))), via="bdsmm")
         # ---------------------------------------------------------------- sparse_eye / to_sparse
@@ -866,8 +990,21 @@ def gen_cases(rng, tier):
                     asop = rng.random() < 0.3 and n == m2
                     add(f"C20/apply_permutation/n={n}/kb={bname(kb)}/l={lk}/r={rk}/{'op' if asop else 'tensor'}", "perm", K=targ(K),
                         l=targ(l) if l is not None else None, r=targ(r) if r is not None else None, asop=asop)
+        # mixed batch ranks: K, left and right permutation with different batch shapes (incl. more batch dims than K)
+        for n in (2, 3):
+            for kb, lb, rb in (((3,), (2, 1), (3,)), ((), (2,), (2,)), ((2, 1), (1, 3), ()), ((1, 2), (3, 1, 1), (2,)), ((2,), (), (3, 1)),
+                               ((2, 3), (3,), (2, 1))):
+                def mkp(b, size, k):
+                    tot = 1
+                    for v in b:
+                        tot *= v
+                    return torch.tensor([rng.sample(range(size), k) for _ in range(tot)], dtype=torch.long).reshape(b + (k,))
+                K = ival(rng, kb + (n, n + 1), -9, 9)
+                l, r = mkp(lb, n, n if rng.random() < 0.5 else n - 1), mkp(rb, n + 1, n + 1 if rng.random() < 0.5 else n)
+                add(f"C20/apply_permutation/mixed/n={n}/kb={bname(kb)}/lb={bname(lb)}/rb={bname(rb)}", "perm", K=targ(K), l=targ(l), r=targ(r),
+                    asop=False)
         for n in (1, 2, 3, 4, 6):
-            for b in ((), (1,), (3,), (2, 3)):
+            for b in ((), (1,), (3,), (2, 3), (2, 1, 2)):
                 tot = 1
                 for v in b:
                     tot *= v
@@ -959,6 +1096,9 @@ def model_value(res, outs):
         vals = []
         for o in outs:
             p = parse_model(o)
+            if p[0] == "ERR" and p[1] == "IndexError" and "errsentinel" in res:
+                vals.append(Fraction(res["errsentinel"]))
+                continue
             if p[0] != "V":
                 return [p]
             vals.append(p[1])
@@ -1004,7 +1144,7 @@ def worker_main(path, start):
                 if ex:
                     ok, what = False, f"{kernel}: {ex}"
             out.update(ok=ok, what=what, impl=impl, lines=res["lines"], tol=tol, mtol=res.get("mtol", tol))
-            for k in ("gather", "sumto", "impl_for_model"):
+            for k in ("gather", "sumto", "impl_for_model", "errsentinel"):
                 if k in res:
                     out[k] = res[k]
         except Exception as e:  # noqa
@@ -1051,12 +1191,21 @@ def eval_cases(cases):
 
 def run(chk, cases=None):
     chk.rule = ("fixed catalogue of cells (kernel x size n>=1 x batch kind none/one/several/broadcast x rhs kind vector/matrix x "
-                "dtype x value kind rand/duplicate-index/zero/all-zero/empty x index kind ...) with seed-random integer values; "
+                "dtype x value kind rand/duplicate-index/zero/all-zero/empty x index kind ...; also the operands handed to torch.dsmm, "
+                "DSMM.backward called directly, toeplitz_getitem on arbitrary ints, three batch dims / size-1 dims on both sides / "
+                "mismatching batches) with seed-random integer values; "
                 "distinct = distinct (kernel, encoded inputs); non-trivial = result is not an error, not 1x1, not all zero")
     chk.assumptions += ["torch.fft / torch.dsmm / torch.linalg.qr / solve_triangular meet their textbook contracts (FFT = circular "
                         "convolution; dsmm = densify-then-matmul)", "torch dense indexing, matmul, repeat, scatter_add as reference semantics",
                         "float32/float64 arithmetic on integers |x| <= 2^24 is exact"]
-    chk.prove("LinOp.Properties.C20", ["LinOp/C20", "LinOp/Core/Parse.lean", "LinOp/Core/Basic.lean"])
+    from ..extract import c20_kernels
+    try:
+        facts = c20_kernels.generate()
+        for bad in c20_kernels.dynamic_crosscheck(facts):
+            chk.proof_break("translator(c20_kernels inventory)", bad)
+    except Exception as e:  # noqa
+        chk.proof_break("translator(c20_kernels)", f"{type(e).__name__}: {e}")
+    chk.prove("LinOp.Properties.C20", ["LinOp/C20", "LinOp/Generated/C20Facts.lean", "LinOp/Core/Parse.lean", "LinOp/Core/Basic.lean"])
     if cases is None:
         cases = gen_cases(chk.rng, chk.tier)
     cases = [list(c) for c in cases]
